@@ -309,7 +309,15 @@ def apply_procs(c, row):
 
 def run_row(c, mods):
     res, rows = make_result(c)
-    row = res.one()
+    if c.get("direct"):
+        # Row built directly (BaseRow.__init__ applies the processors itself: _row_cy._apply_processors)
+        from sqlalchemy.engine.row import Row
+
+        md = res._metadata
+        procs = [PROCS[p] for p in c["procs"]] if c.get("procs") else None
+        row = Row(md, procs, md._key_to_index, rows[0])
+    else:
+        row = res.one()
     exp = apply_procs(c, rows[0])
     keys = c["keys"]
     outs, fail = [], None
@@ -408,7 +416,8 @@ def run_result(c, mods):
     uniq = c.get("unique", False)
     try:
         if uniq:
-            res = res.unique()
+            # "str" exercises the strategy branches: same equivalence classes as plain equality
+            res = res.unique(strategy=str) if c.get("unique_strategy") == "str" else res.unique()
         if c.get("yield_per"):
             res = res.yield_per(c["yield_per"])
         if flt[0] == "scalars":
@@ -621,7 +630,7 @@ def gen_cases(rng, n):
                     ops.append([o])
             if procs and any(p == "str" for p in procs):
                 ops = [o for o in ops if o[0] != "cmp"]
-            out.append({"kind": "row", "keys": keys, "rows": [row], "procs": procs, "rowtype": rng.choice(["tuple", "list"]), "ops": ops})
+            out.append({"kind": "row", "keys": keys, "rows": [row], "procs": procs, "rowtype": rng.choice(["tuple", "list"]), "ops": ops, "direct": rng.random() < 0.5})
         else:
             nk = rng.randint(1, 3)
             keys = ["c%d" % i for i in range(nk)]
@@ -638,6 +647,8 @@ def gen_cases(rng, n):
             elif f < 0.5:
                 c["filter"] = ["columns", [rng.randrange(nk) for _ in range(rng.randint(1, 2))]]
             c["unique"] = rng.random() < 0.3
+            if c["unique"] and rng.random() < 0.5:
+                c["unique_strategy"] = "str"
             if not c["unique"] and rng.random() < 0.3:
                 c["yield_per"] = rng.choice([1, 2, 3])
             ops = []
